@@ -193,8 +193,18 @@ func GenRun(rng *rand.Rand, p SParams) *SHistory {
 			}
 		}
 		if open {
-			add(p.WDeliver, func() {
-				v := first + uint16(rng.Intn(int(last-first)+1))
+			var live []uint16 // vBuckets whose stream has not ended for good: the server sends nothing else
+			for v := int(first); v <= int(last); v++ {
+				if !vb(uint16(v)).ended {
+					live = append(live, uint16(v))
+				}
+			}
+			wLive := 0.0
+			if len(live) > 0 {
+				wLive = 1.0
+			}
+			add(p.WDeliver*wLive, func() {
+				v := live[rng.Intn(len(live))]
 				g := vb(v)
 				var ev SEv
 				r := rng.Float64()
@@ -264,8 +274,8 @@ func GenRun(rng *rand.Rand, p SParams) *SHistory {
 					}
 				}
 			})
-			add(map[bool]float64{true: 0, false: p.WEnd}[stopped], func() {
-				v := first + uint16(rng.Intn(int(last-first)+1))
+			add(map[bool]float64{true: 0, false: p.WEnd * wLive}[stopped], func() {
+				v := live[rng.Intn(len(live))]
 				g := vb(v)
 				cause := []string{"transient", "transient", "clean", "final"}[rng.Intn(4)]
 				op := SOp{Kind: "end", Vb: v, Cause: cause, ErrIdx: rng.Intn(10), UUID: g.uuid}
